@@ -7,6 +7,9 @@ import TdVerif.Lemmas.C12Split
 import TdVerif.Lemmas.C12Pool
 import TdVerif.Lemmas.C12Tensor
 import TdVerif.Lemmas.C12Iter
+import TdVerif.Lemmas.C12Shared
+import TdVerif.Gen.C12Src
+import TdVerif.Model.C12Pins
 
 namespace TdVerif.Props.C12
 open TdVerif.C12
@@ -170,6 +173,25 @@ theorem map_model_eq_sequential (f : List α → List β) (hf : SliceWise f) (ro
       simp at this; omega
     rw [map_eq_sequential f hf rows ps hp hne] at h
     exact h.symm
+
+/-- **the whole `_map` with a shared-memory / memory-mapped `out=` buffer, eager and generator mode**: the buffer is split with
+    the same arguments as the input, zipped with it, and every worker writes its result into its own piece (a generator slice may
+    stick out beyond the end, `chunksize=0` hands out single rows): for every dim size `n > 0`, chunk size, chunk count, worker
+    count and mode that `_split_tensordict` accepts, a row-wise function and a buffer of the input's length, `map` returns `None`
+    and the buffer holds `fn(td)`. -/
+theorem map_model_shared_out_eq_sequential (g : α → β) (rows : List α) (hn : 0 < rows.length) (cs nc : Option Nat) (w : Nat)
+    (gen : Bool) (out : List β) (hout : out.length = rows.length) (r : Option (List β) × List β)
+    (h : mapModel rows cs nc w gen (fun _ x => some (x.map g)) .shared out = .ok r) :
+    r = (none, rows.map g) := by
+  unfold mapModel at h
+  rw [hout] at h
+  cases hs : splitTensordict rows.length cs nc w gen with
+  | error e => simp [hs] at h
+  | ok ps =>
+    have ht := split_tiles rows.length hn cs nc w gen ps hs
+    have hm := mapSharedOut_tiles g rows ps 0 out ht hout
+    simp only [hs, ne_eq, not_true_eq_false, if_false, hm, Except.ok.injEq] at h
+    simpa using h.symm
 
 /-! ### in-place apply: the objects -/
 
@@ -571,5 +593,10 @@ example : (catList 1 (sliceOf 1 (⟨[2, 5], fun c => c⟩ : T (List Nat)) (0, 2)
 example : (catList 1 (mapT (· ++ [7]) (sliceOf 1 (⟨[2, 5], fun c => c⟩ : T (List Nat)) (0, 2)))
     ((splitLoop 5 2 2).map fun p => mapT (· ++ [7]) (sliceOf 1 ⟨[2, 5], fun c => c⟩ p))).Eqv (mapT (· ++ [7]) ⟨[2, 5], fun c => c⟩) :=
   map_split_cat_eq_whole 1 ⟨[2, 5], fun c => c⟩ (mapT (· ++ [7])) (mapT_sliceWise _ 1) (by decide) rfl 2 (by decide)
+
+/-- the functions the C12 models transcribe are, in the working tree, the ones they were transcribed from (AST hashes,
+    docstrings removed; regenerated by harness/c12_pins.py on every run): an edit of a transcribed function breaks this
+    obligation even when no sampled input behaves differently -/
+theorem transcribed_sources_unchanged : Gen.c12Sources = TdVerif.C12.c12Pinned := by decide
 
 end TdVerif.Props.C12
